@@ -230,7 +230,18 @@ func parseRaceLogs(dir string) []RaceReport {
 // RunParent fans the case list out to children and aggregates.
 func RunParent(p *Prop, tier string, seed int64, exe string, onlyCase int) int {
 	start := time.Now()
-	workDir := filepath.Join(Root, "work", p.ID)
+	// one scratch directory per run (two runs of the same property may overlap);
+	// directories of runs whose process is gone are removed
+	if olds, _ := filepath.Glob(filepath.Join(Root, "work", p.ID+".*")); len(olds) > 0 {
+		for _, o := range olds {
+			pid := o[strings.LastIndex(o, ".")+1:]
+			if _, err := os.Stat("/proc/" + pid); err != nil {
+				os.RemoveAll(o)
+			}
+		}
+	}
+	os.RemoveAll(filepath.Join(Root, "work", p.ID)) // layout of earlier revisions
+	workDir := filepath.Join(Root, "work", fmt.Sprintf("%s.%d", p.ID, os.Getpid()))
 	os.RemoveAll(workDir)
 	os.MkdirAll(workDir, 0o755)
 	n := 16
